@@ -7,6 +7,8 @@ Require Import Clarabel.Base.Ops Clarabel.Cones.Vec Clarabel.Cones.NN Clarabel.C
                Clarabel.Cones.Step Clarabel.Cones.SpecC15.
 Require Import Clarabel.Cones.LemmasStepNN Clarabel.Cones.LemmasStepSOC Clarabel.Cones.LemmasStepMisc.
 Require Import Clarabel.Cones.SpecShiftFloat Clarabel.Cones.LemmasShiftFloat.
+Require Import Clarabel.Cones.SpecPSD Clarabel.Cones.Mat Clarabel.Cones.SpecPSDScal Clarabel.Cones.LemmasPSDStep
+               Clarabel.Cones.LemmasPSDIndex.
 Import ListNotations.
 Open Scope R_scope.
 
@@ -61,6 +63,24 @@ Proof. exact shift_places_interior_ok. Qed.
     (1, 3, 4), outside the cone (absorption); the theorem above is about the reals *)
 Theorem C15_shift_float_absorption_witness : stmt_shift_float_absorption_witness.
 Proof. exact shift_float_absorption_witness_ok. Qed.
+
+(** PSD cone, every n.  Hypotheses (validated per call): R R⁻¹ = I, RᵀZR = Λ resp. R⁻¹SR⁻ᵀ = Λ, λ > 0,
+    and the eigenvalue used is a lower bound of the spectrum of the scaled direction.  Then every
+    t in [0, step] keeps X + tΔX positive semidefinite and the step is in [0, α_max]. *)
+Theorem C15_psd_step_safe : stmt_psd_step_safe.
+Proof. exact psd_step_safe_ok. Qed.
+Theorem C15_psd_step_z : stmt_psd_step_z.
+Proof. exact psd_step_z_ok. Qed.
+Theorem C15_psd_step_s : stmt_psd_step_s.
+Proof. exact psd_step_s_ok. Qed.
+(** margins / unit shift: with γ the minimum eigenvalue, M + αI is PSD iff α >= −γ and positive
+    definite when α > −γ; the packed shift adds α to the diagonal and nothing else *)
+Theorem C15_psd_shift_iff : stmt_psd_shift_iff.
+Proof. exact psd_shift_iff_ok. Qed.
+Theorem C15_psd_shift_strict : stmt_psd_shift_strict.
+Proof. exact psd_shift_strict_ok. Qed.
+Theorem C15_psd_unit_shift_mat : stmt_psd_unit_shift_mat.
+Proof. exact psd_unit_shift_mat_ok. Qed.
 
 (** non-vacuity: the hypotheses are met by concrete non-trivial instances, and the repaired
     routine returns the true bound 1/2 on the former witness of F3 *)
